@@ -13,19 +13,22 @@ PROP = dict(
                   'listed field and every visible cell, over a byte-level model of the LAYER_n payload, its '
                   'continuation chunks and the ICED header whose constants (flag bits, attribute markers, thresholds, '
                   'chunk budget, keywords, default palette) are regenerated from the source; differential '
-                  'correspondence of writer bytes and reader results (incl. Err/panic outcomes on malformed payloads) '
+                  'correspondence of writer bytes and reader results (incl. the Err outcome of every length check on malformed payloads) '
                   'against the real crate, which is driven through Buffer::to_bytes("icy", lossless) / from_bytes',
         thorough_exhaustive=True,
         rule='cases: EXHAUSTIVE small scope (every layer up to 2x2 in quick / 3x2 in thorough over 4 kinds of cell: short, long, invisible, invisible+attribute bit), hand-made boundary documents (invisible cells with extra bits, full rows, width/height 0, every '
              'short/long threshold, transparent colours, each flag alone, offsets +-50, default page 300, 6 layers + '
              'SAUCE + 300 colours), seeded documents of the quantifier (scaled down in quick, 200x120 layers included), '
-             'documents with SHORT_DATA-marked cells (model tie only), mutated layer payloads and ICED headers fed to the '
+             'documents with SHORT_DATA-marked cells (model tie only), mutated layer payloads (incl. non-scalar character fields), cell data '
+             'moved whole / cut / damaged / in pieces into LAYER_n~k continuation chunks, continuation chunks of undefined layers and mutated ICED headers fed to the '
              'real loader; thorough adds 1500x160 layers that are split into continuation chunks (model tie only); '
              'distinct_nontrivial = distinct documents saved and loaded',
         modelled='icy_draw.rs to_bytes (ICED header, LAYER_n payload: title, role, spare bytes, mode, colour+alpha, flags, '
                  'transparency, offset, size, default font page, data length, rows of short/long/invisible cells with the '
                  'INVISIBLE_SHORT terminator, 3 MB chunk budget and LAYER_n~k continuation chunks, chunk order and presence '
-                 'of SAUCE/PALETTE/FONT_n/END) and load_buffer (every index/slice with its Err/panic/abort outcome, '
+                 'of SAUCE/PALETTE/FONT_n/END) and load_buffer (every length check with its Err outcome - FileTooShort for title and 41-byte layer header, '
+                 'announced data length, cell records of first and continuation chunks alike, invalid character, continuation chunk of an undefined layer - '
+                 'in front of every index/slice, '
                  'Layer::set_char incl. lock/alpha behaviour, Line::set_char, flags applied after the cells, keyword '
                  'dispatch); Layer::get_char, get_invisible_line_length',
         not_modelled='PNG container, zTXt/zlib, base64, preview image, keyword format!/parse (parameters: chunks in = chunks '
